@@ -335,3 +335,40 @@ class InodeOpen(Base):
 
     def observe(self, c, a, out):
         return {'kind': out.kind}
+
+
+@contract
+class BlocksizeRefused(Base):
+    """C16/blocksize: every way of copying file data out of an image (get_file_from_iso_fp in each namespace, get_and_write_fp, the
+    mastering loop of write_fp) refuses a transfer size below 1 with InvalidInput before anything is written - a size of 0 used to
+    loop for ever, a negative one copied everything up to the end of the image.  This is what makes the precondition blocksize >= 1
+    of the copy-loop contract (CopyDataYield) hold at every call site."""
+    entry = '_get_file_from_iso_fp'
+    target = 'pycdlib.pycdlib.PyCdlib._get_file_from_iso_fp'
+    crosscheck = False
+    label = property(lambda self: 'pycdlib.PyCdlib.%s<blocksize below 1>' % self.entry)
+
+    def setup(self, c):
+        a = c.a
+        self.target = 'pycdlib.pycdlib.PyCdlib.' + self.entry
+        a.bs = c.int('blocksize', None, 0)
+        a.out = c.file(b'')
+        a.self = c.obj('pycdlib.pycdlib.PyCdlib', _initialized=True)
+        args = {'_get_file_from_iso_fp': [a.out, a.bs, b'/A.;1', None, None], '_udf_get_file_from_iso_fp': [a.out, a.bs, b'/a'],
+                '_get_and_write_fp': [b'/A.;1', a.out, a.bs], '_write_fp': [a.out, a.bs, None, None]}[self.entry]
+        return Call(args, self_obj=a.self)
+
+    def raises(self, c, a):
+        return {'PyCdlibInvalidInput': True}
+
+    covers = ('raise:PyCdlibInvalidInput',)
+
+    def post(self, c, a, out):
+        return {'refused': False}
+
+    def post_raise(self, c, a, out):
+        written = a.out.items if c.symbolic else a.out.getvalue()
+        return {'nothing-written': len(written) == 0}
+
+    def observe(self, c, a, out):
+        return {'kind': out.kind, 'exc': out.exc}
